@@ -74,8 +74,12 @@ def markup_inventory(ctx: Ctx, rid: str) -> None:
                 fn = getattr(fn, "_parent", None)
             assert fn is not None
             if cls == "sanitised-json":
-                txt = ast.unparse(c)
-                ok = all(f".replace('{ch}', " in txt for ch in "<>&") and ".replace(\"'\", " in txt
+                from .normalize import norm as _norm
+
+                # normal form of the enclosing function: a replace loop over a table of pairs,
+                # or step-by-step reassignments, are the chain of .replace() calls they spell out
+                txts = [ast.unparse(c2) for c2 in astq.calls(_norm(fn)) if astq.callee(c2) in ("Markup", "markupsafe.Markup")] or [ast.unparse(c)]
+                ok = all(all(f".replace('{ch}', " in txt for ch in "<>&") and ".replace(\"'\", " in txt for txt in txts)
                 ctx.check(ok, f"{mod}:{q}", f"{mod}:{q}", "JSON not fully neutralised", "the JSON text marked safe must have <, >, & and ' replaced", f"{m.rel}:{c.lineno}")
                 continue
             if cls == "method-use":
